@@ -530,25 +530,49 @@ def default_capable(m):
         or (m["m"] == "alt" and m["x"]["m"] in ("scalar", "lit"))
 
 
-def field_variants(rng, vg, name, m, n_random, extra_tys=()):
+class _NoDefault:
+    def __repr__(self):
+        return "NODEF"
+
+
+NODEF = _NoDefault()      # no default at all (Python `None` below is the literal default `= None`)
+RANDOM_DEFAULT = object()
+
+
+def field_variants(rng, vg, name, m, n_random, extra_tys=(), default=RANDOM_DEFAULT):
     """spellings of one field: a list of FieldSp wire objects; [0] is the typedpy-native reference;
-    `extra_tys` = directed type spellings to include as annotations"""
+    `extra_tys` = directed type spellings to include as annotations; `default` = NODEF, a wire scalar, or None for
+    the literal default `= None` (validated like any default, but "no default" afterwards: for a meaning with a None
+    alternative the spellings WITHOUT a default are therefore equivalent and are included)"""
     decl = meaning_decl(m)
-    default = None
-    if default_capable(m) and rng.random() < 0.45:
-        base = decl["fields"][0] if decl["k"] == "anyOf" else decl
-        default = scalar_default(rng, vg, base)
     has_none = meaning_has_top_none(m)
-    force_optional = not has_none and default is None and rng.random() < 0.15
+    if default is RANDOM_DEFAULT:
+        default = NODEF
+        if rng.random() < (0.15 if has_none else 0.02):
+            default = None
+        elif default_capable(m) and rng.random() < 0.45:
+            base = decl["fields"][0] if decl["k"] == "anyOf" else decl
+            default = scalar_default(rng, vg, base)
+            if default is None:
+                default = NODEF
+    force_optional = not has_none and default is NODEF and rng.random() < 0.15
     out, seen = [], set()
+
+    def hows_for(mode, ty):
+        if default is NODEF:
+            return [None]
+        if default is None:
+            return (["eq"] if mode == "ann" else []) + ([None] if has_none else [])
+        hs = ["eq"] if mode == "ann" else []
+        if ty["s"] in KW_ALLOWED:
+            hs.append("kw")
+        return hs
 
     def add(ty, mode, how):
         f = {"name": name, "mode": mode, "ty": ty}
-        if default is not None:
-            if how is None:
-                return
+        if how is not None:
             f["dflt"] = {"how": how, "v": default, "len": len(py_literal(default))}
-        kwtext = py_literal(default) if default is not None and how == "kw" else None
+        kwtext = py_literal(default) if how == "kw" else None
         fill_lens(f["ty"], kwtext)
         # a meaning with a None alternative is an optional field in every spelling: by itself where typedpy
         # documents that (typing / PEP-604 union with a None member), through `_optional` otherwise
@@ -570,23 +594,15 @@ def field_variants(rng, vg, name, m, n_random, extra_tys=()):
         elif rng.random() < 0.03:
             modes.append("assign")      # undocumented: corresponded only
         for mode in modes:
-            hows = [None]
-            if default is not None:
-                hows = []
-                if mode == "ann":
-                    hows.append("eq")
-                if ty["s"] in KW_ALLOWED:
-                    hows.append("kw")
-            for how in hows:
+            for how in hows_for(mode, ty):
                 add(json.loads(json.dumps(ty)), mode, how)
     for ty in extra_tys:
-        hows = [None] if default is None else ["eq"]
-        for how in hows:
+        for how in hows_for("ann", ty):
             add(json.loads(json.dumps(ty)), "ann", how)
     return out
 
 
-def gen_case(rng, tier, ci, meanings=None, extra_tys=None, cap=None):
+def gen_case(rng, tier, ci, meanings=None, extra_tys=None, cap=None, defaults=None):
     """`meanings` / `extra_tys` (per field) fix the class for the directed stream; default: random"""
     dg = gen.DeclGen(rng, max_depth=1)
     vg = gen.ValGen(rng)
@@ -597,8 +613,9 @@ def gen_case(rng, tier, ci, meanings=None, extra_tys=None, cap=None):
     n_fields = len(meanings)
     names = rng.sample(["a", "b", "c", "d", "e1", "f_2"], n_fields)
     extra_tys = extra_tys or [()] * n_fields
-    per_field = [field_variants(rng, vg, nm, m, 3 if tier == "quick" else 5, ex)
-                 for nm, m, ex in zip(names, meanings, extra_tys)]
+    defaults = defaults or [RANDOM_DEFAULT] * n_fields
+    per_field = [field_variants(rng, vg, nm, m, 3 if tier == "quick" else 5, ex, df)
+                 for nm, m, ex, df in zip(names, meanings, extra_tys, defaults)]
     # class variants: reference first, then every field variant at least once, then random combinations
     combos = [tuple(0 for _ in names)]
     longest = max(len(p) for p in per_field)
@@ -622,7 +639,8 @@ def gen_case(rng, tier, ci, meanings=None, extra_tys=None, cap=None):
     # shared value stream, from the documented meaning
     decls = [meaning_decl(m) for m in meanings]
     ref = variants[0]["fields"]
-    required = [f["name"] for f, m in zip(ref, meanings) if not f.get("inOptional") and not f.get("dflt")]
+    required = [f["name"] for f, m in zip(ref, meanings)
+                if not f.get("inOptional") and not (f.get("dflt") and f["dflt"]["v"] is not None)]
     cls = {"k": "struct", "name": "K", "required": sorted(required), "addl": True,
            "fields": [[nm, d] for nm, d in zip(names, decls)]}
     kws = []
@@ -739,8 +757,43 @@ def single_arg_cases(rng, tier):
     return cases
 
 
+FALSY = {"int": 0, "str": "", "bool": False, "float": {"f": [0, 1]}}
+TRUTHY = {"int": 7, "str": "ab", "bool": True, "float": {"f": [5, 2]}}
+
+
+def default_cases(rng, tier):
+    """Directed stream: the product (spelling of the declaration) x (default: none, `= None`, a falsy valid default
+    0 / '' / False / 0.0, a truthy one; each as `= v` and, where a call form exists, `default=v`) for optional and
+    non-optional meanings, next to a plain second field."""
+    none = {"s": "none"}
+    other = {"m": "scalar", "k": rng.choice(["str", "int"])}
+    combos = []
+    for k in ("int", "str", "bool", "float"):
+        t = {"m": "scalar", "k": k}
+        for m in ({"m": "opt", "x": t}, t):
+            for dv in (None, FALSY[k], TRUTHY[k]):
+                combos.append((m, dv))
+    combos.append(({"m": "opt", "x": {"m": "coll", "c": "list", "x": {"m": "scalar", "k": "str"}}}, None))
+    combos.append(({"m": "alt", "x": {"m": "scalar", "k": "int"}, "y": {"m": "opt", "x": {"m": "scalar", "k": "str"}}}, None))
+    combos.append(({"m": "alt", "x": {"m": "scalar", "k": "int"}, "y": {"m": "scalar", "k": "str"}}, 0))
+    if tier == "quick":
+        must = [c for c in combos if c[0]["m"] == "opt" and c[1] is None]
+        rest = [c for c in combos if c not in must]
+        combos = rng.sample(must, 2) + rng.sample(rest, 5)
+    cases = []
+    for m, dv in combos:
+        extra = ()
+        if m["m"] == "opt":       # every way of writing T-or-None, in both orders
+            ts = [spell(m["x"], rng, st) for st in ("builtin", "native")]
+            extra = union_spellings(ts, [none]) + union_spellings([none], ts)
+        cases.append(gen_case(rng, tier, len(cases), meanings=[m, other], extra_tys=[extra, ()], cap=60,
+                              defaults=[dv, NODEF]))
+    return cases
+
+
 def gen_cases(rng, tier, n):
-    return directed_cases(rng, tier) + single_arg_cases(rng, tier) + [gen_case(rng, tier, i) for i in range(n)]
+    return (directed_cases(rng, tier) + single_arg_cases(rng, tier) + default_cases(rng, tier)
+            + [gen_case(rng, tier, i) for i in range(n)])
 
 
 # ------------------------------------------------------------------ real code
